@@ -192,6 +192,7 @@ func c18Run(c *eng.Ctx, qi int, seq []int, alpha []optLetter, ps []c18parsed, ds
 			}
 		}
 		ev, err := createSafe(src, opts)
+		scribble(opts) // the caller recycles its slice: the evaluator must not depend on it any more
 		c.R.Evaluations++
 		c.R.States++
 		c.R.Traces++
